@@ -67,7 +67,7 @@ func TestC08Liveness(t *testing.T) {
 		}
 		n := rapid.IntRange(0, maxLen).Draw(rt, "n")
 		var hist []string
-		var viol, startState string
+		var viol, startState, trafficKind string
 		wd := lab.StartWatchdog(t.Name(), "breaker-recovery-script", lab.NoProgress, func() any {
 			return map[string]any{"cfg": c, "strategy": cfg.LoadBalancer.Strategy, "history": hist}
 		})
@@ -87,9 +87,18 @@ func TestC08Liveness(t *testing.T) {
 				fn.Set(lab.BackendHost(i), b)
 				hist = append(hist, fmt.Sprintf("set(b%d,%v)", i, b))
 			}
+			// what the traffic looks like is drawn per case: ordinary GETs, requests that all offer a protocol
+			// upgrade (a WebSocket-only service: the scripted backends answer them like any other request), or a mix.
+			// "Whenever requests would succeed again ... the breaker is closed" does not depend on it.
+			traffic := rapid.SampledFrom([]string{"plain", "plain", "upgrade-only", "mixed"}).Draw(rt, "traffic")
+			trafficKind = traffic
 			req := func(k int) (status int, hit bool) {
 				before := fn.Arrivals()
-				s, _, _, _ := lab.Serve(lb, lab.Request("GET", "/x", fmt.Sprintf("10.0.0.%d:4000", 1+k%5), nil))
+				var hdr map[string]string
+				if traffic == "upgrade-only" || traffic == "mixed" && k%2 == 1 {
+					hdr = map[string]string{"Connection": "Upgrade", "Upgrade": "websocket", "Sec-WebSocket-Version": "13", "Sec-WebSocket-Key": "dGhlIHNhbXBsZSBub25jZQ=="}
+				}
+				s, _, _, _ := lab.Serve(lb, lab.Request("GET", "/x", fmt.Sprintf("10.0.0.%d:4000", 1+k%5), hdr))
 				return s, fn.Arrivals() > before
 			}
 			to := time.Duration(c.Timeout) * time.Second
@@ -147,7 +156,8 @@ func TestC08Liveness(t *testing.T) {
 			mrl = "huge"
 		}
 		labels := []string{"start-" + startState, fmt.Sprintf("st%d-mr%s", c.ST, mrl)}
-		sub.Case(map[string]any{"cfg": c, "strategy": cfg.LoadBalancer.Strategy, "backends": len(cfg.Backends), "history": hist}, startState != "CLOSED", labels...)
+		labels = append(labels, "traffic="+trafficKind)
+		sub.Case(map[string]any{"cfg": c, "strategy": cfg.LoadBalancer.Strategy, "backends": len(cfg.Backends), "traffic": trafficKind, "history": hist}, startState != "CLOSED", labels...)
 		if viol != "" {
 			rt.Fatalf("cfg %+v strategy %s history %v: %s", c, cfg.LoadBalancer.Strategy, hist, viol)
 		}
